@@ -106,7 +106,7 @@ func (m *mgFunc) declare(n string, redeclareOK bool) string {
 	return v
 }
 
-func q(s string) string { return strconv.Quote(s) }
+func q(s string) string { return leanStr(s) }
 
 func intLit(n int64) string {
 	if n < 0 {
